@@ -173,3 +173,21 @@ Example slot_indices_valid_nonvacuous :
   let t := fold_left sstep [SCreate 1; SCreate 3; SCreate 5; SKill 3; SKill 5; SCreate 7; SShrink] (mktable [] [] 2) in
   slots t = [Live 1; Live 7] /\ smap t = [(7, 1%nat); (1, 0%nat)].
 Proof. vm_compute. split; reflexivity. Qed.
+
+(** 6. Stream identifiers.  After ANY sequence of HEADERS (accepted, refused at
+    the concurrent-stream limit or while draining, or rejected), stream ends
+    and drain, a stream id for which HEADERS was accepted or refused is never
+    classified idle again: late frames on it (the DATA that followed a refused
+    HEADERS, RST_STREAM, WINDOW_UPDATE) are frames on a closed stream, not a
+    PROTOCOL_ERROR that tears the connection down. *)
+Theorem seen_never_idle :
+  forall evs s0 sid,
+    let '(s, seen) := fold_left idstep evs (s0, []) in
+    In sid seen -> classify s sid <> IdIdle.
+Proof. exact seen_never_idle_l. Qed.
+
+Example seen_never_idle_nonvacuous :
+  let '(s, seen) := fold_left idstep [IdHeaders 1; IdHeaders 3; IdHeaders 5; IdEnd 1]
+                              (mkids 0 0 [] 2%nat false, []) in
+  seen = [5; 3; 1] /\ open_ids s = [3] /\ classify s 5 = IdClosed /\ classify s 1 = IdClosed /\ classify s 7 = IdIdle.
+Proof. vm_compute. repeat split; reflexivity. Qed.
